@@ -2,6 +2,9 @@ package vc
 
 import (
 	"fmt"
+	"go/token"
+	"net/textproto"
+	"strconv"
 	"go/constant"
 	"go/types"
 	"strings"
@@ -19,6 +22,7 @@ type evalCtx struct {
 	cur   *State
 	old   *State
 	atReturn   bool
+	inTrigger  bool
 	assumeMode bool
 }
 
@@ -155,10 +159,37 @@ func (ec *evalCtx) eval(e spec.Expr) Val {
 				return Val{T: smt.Select(v.T, i.T)}
 			}
 		}
+		if v.T != nil && v.T.Sort == smt.SList {
+			return Val{T: smt.LAt(v.T, i.T)}
+		}
+		if v.T != nil && v.T.Sort == smt.Slice {
+			// same term shape as the code's IndexAddr: backing[off+i]
+			backing := fc.readKey(ec.cur, "elems", smt.SlArr(v.T), smt.Seq)
+			r := Val{T: smt.SAtOff(backing, smt.SlOff(v.T), i.T)}
+			if v.GoT != nil {
+				if sl, ok := v.GoT.Underlying().(*types.Slice); ok {
+					r.GoT = sl.Elem()
+					if k := kindOf(sl.Elem()); k == KRef || k == KPtr {
+						r = fc.fromTerm(r.T, sl.Elem())
+					}
+				}
+			}
+			return r
+		}
 		s := ec.seqOf(v, e)
 		return Val{T: smt.SAt(s, i.T)}
 	case *spec.SliceE:
 		v := ec.eval(x.X)
+		if v.T != nil && v.T.Sort == smt.SList {
+			lo, hi := smt.IntLit(0), smt.LLen(v.T)
+			if x.Lo != nil {
+				lo = ec.eval(x.Lo).T
+			}
+			if x.Hi != nil {
+				hi = ec.eval(x.Hi).T
+			}
+			return Val{T: smt.LSub(v.T, lo, hi)}
+		}
 		s := ec.seqOf(v, e)
 		lo := smt.IntLit(0)
 		hi := smt.SLen(s)
@@ -171,8 +202,20 @@ func (ec *evalCtx) eval(e spec.Expr) Val {
 		return Val{T: smt.SSub(s, lo, hi)}
 	case *spec.SeqLit:
 		r := smt.SEmpty
+		var lr *smt.Term
 		for _, el := range x.Elems {
-			r = smt.SCat(r, smt.SUnit(ec.eval(el).T))
+			ev := ec.eval(el).T
+			if ev.Sort == smt.Seq {
+				if lr == nil {
+					lr = smt.LNil
+				}
+				lr = smt.LApp(lr, smt.LUnit(ev))
+				continue
+			}
+			r = smt.SCat(r, smt.SUnit(ev))
+		}
+		if lr != nil {
+			return Val{T: lr}
 		}
 		return Val{T: r}
 	case *spec.Unary:
@@ -184,7 +227,14 @@ func (ec *evalCtx) eval(e spec.Expr) Val {
 	case *spec.Cond:
 		c := ec.boolean(x.C)
 		a, b := ec.eval(x.A), ec.eval(x.B)
-		return Val{T: smt.Ite(c, ec.scalar(a, e), ec.scalar(b, e)), GoT: a.GoT}
+		at, bt := ec.scalar(a, e), ec.scalar(b, e)
+		if at.Sort == smt.SList && bt == smt.SEmpty {
+			bt = smt.LNil
+		}
+		if bt.Sort == smt.SList && at == smt.SEmpty {
+			at = smt.LNil
+		}
+		return Val{T: smt.Ite(c, at, bt), GoT: a.GoT}
 	case *spec.Let:
 		v := ec.eval(x.Val)
 		return ec.with(x.Name, v).eval(x.Body)
@@ -200,8 +250,10 @@ func (ec *evalCtx) eval(e spec.Expr) Val {
 		var trigs [][]*smt.Term
 		for _, tr := range x.Triggers {
 			var ts []*smt.Term
+			nt := *n
+			nt.inTrigger = true
 			for _, te := range tr {
-				ts = append(ts, n.eval(te).T)
+				ts = append(ts, nt.eval(te).T)
 			}
 			trigs = append(trigs, ts)
 		}
@@ -239,6 +291,8 @@ func (ec *evalCtx) lenOf(v Val, e spec.Expr) *smt.Term {
 		return smt.SLen(t)
 	case smt.Slice:
 		return smt.SlLen(t)
+	case smt.SList:
+		return smt.LLen(t)
 	}
 	ec.fail("|.| of a value of sort %s in %s", t.Sort, e)
 	return nil
@@ -320,12 +374,20 @@ func (ec *evalCtx) binary(x *spec.Binary) Val {
 		if bt.Sort == smt.Slice && at.Sort == smt.Seq {
 			bt = ec.fc.seqOfSlice(ec.cur, bt)
 		}
+		if at.Sort == smt.SList && bt == smt.SEmpty {
+			bt = smt.LNil
+		}
+		if bt.Sort == smt.SList && at == smt.SEmpty {
+			at = smt.LNil
+		}
 		if at.Sort != bt.Sort {
 			ec.fail("comparison of different sorts %s / %s in %s", at.Sort, bt.Sort, x)
 		}
 		var eq *smt.Term
 		if at.Sort == smt.Seq {
 			eq = smt.SEq(at, bt)
+		} else if at.Sort == smt.SList {
+			eq = smt.LEq(at, bt)
 		} else {
 			eq = smt.Eq(at, bt)
 		}
@@ -334,6 +396,12 @@ func (ec *evalCtx) binary(x *spec.Binary) Val {
 		}
 		return Val{T: eq}
 	case "++":
+		if at.Sort == smt.SList || bt.Sort == smt.SList {
+			if at.Sort != smt.SList || bt.Sort != smt.SList {
+				ec.fail("++ of a string list and a non-list in %s", x)
+			}
+			return Val{T: smt.LApp(at, bt)}
+		}
 		return Val{T: smt.SCat(ec.seqOf(a, x), ec.seqOf(b, x))}
 	}
 	if at.Sort != smt.Int || bt.Sort != smt.Int {
@@ -371,6 +439,17 @@ func (ec *evalCtx) callSpec(x *spec.Call) Val {
 		if g.Global {
 			return Val{T: fc.readKey(ec.cur, "ghost:"+g.Name, smt.IntLit(0), vs)}
 		}
+		if g.Index != "" {
+			if len(x.Args) != 2 {
+				ec.fail("ghost field %s takes two arguments", x.Fun)
+			}
+			ref := ec.scalar(ec.eval(x.Args[0]), x)
+			idx := ec.scalar(ec.eval(x.Args[1]), x)
+			if idx.Sort == smt.Slice {
+				idx = fc.seqOfSlice(ec.cur, idx)
+			}
+			return Val{T: smt.Select(fc.readKey(ec.cur, "ghost:"+g.Name, ref, smt.Arr(specSort(g.Index), vs)), idx)}
+		}
 		if len(x.Args) != 1 {
 			ec.fail("ghost field %s takes one argument", x.Fun)
 		}
@@ -403,15 +482,7 @@ func (ec *evalCtx) callSpec(x *spec.Call) Val {
 		// typeis(x, "T"): dynamic type of interface value x is T
 		v := ec.eval(x.Args[0])
 		name := x.Args[1].(*spec.StrLit).Val
-		tn := "ty!" + smt.Ident(name)
-		if !fc.S.Declared(tn) {
-			fc.S.DeclareFun(tn, nil, smt.Int)
-			fc.typeIDs = append(fc.typeIDs, tn)
-			for _, other := range fc.typeIDs[:len(fc.typeIDs)-1] {
-				fc.S.Assert(smt.Neq(smt.Const(tn, smt.Int), smt.Const(other, smt.Int)), "")
-			}
-		}
-		return Val{T: smt.Eq(fc.dtype(ec.scalar(v, x)), smt.Const(tn, smt.Int))}
+		return Val{T: smt.Eq(fc.dtype(ec.scalar(v, x)), fc.typeIDByName(name))}
 	case "update":
 		a, i, v := ec.eval(x.Args[0]), ec.eval(x.Args[1]), ec.eval(x.Args[2])
 		return Val{T: smt.SUpd(ec.seqOf(a, x), i.T, v.T)}
@@ -427,6 +498,94 @@ func (ec *evalCtx) callSpec(x *spec.Call) Val {
 		return Val{T: smt.SlArr(ec.scalar(ec.eval(x.Args[0]), x))}
 	case "mapdom", "mapval":
 		return ec.mapAccess(x)
+	case "callres", "called", "callresb":
+		// callres("callee", k [, i]): (component i of) the result of the k-th call to callee on this path
+		name := x.Args[0].(*spec.StrLit).Val
+		k := x.Args[1].(*spec.IntLit).Val
+		key := name + "#" + k
+		if x.Fun == "called" {
+			g, ok := fc.callGuard[key]
+			if !ok {
+				return Val{T: smt.False}
+			}
+			return Val{T: g}
+		}
+		v, ok := fc.callRes[key]
+		if !ok {
+			// no such call on any path to this point: the value is irrelevant (guard with called(...))
+			if x.Fun == "callresb" {
+				return Val{T: smt.False}
+			}
+			return Val{T: smt.IntLit(0)}
+		}
+		if len(x.Args) == 3 {
+			i, _ := strconv.Atoi(x.Args[2].(*spec.IntLit).Val)
+			if v.Fs == nil || i >= len(v.Fs) {
+				ec.fail("callres: %s has no component %d", key, i)
+			}
+			return v.Fs[i]
+		}
+		return v
+	case "cast":
+		// cast(x, "Go type"): view a reference as a value of the given Go type (e.g. a map)
+		v := ec.eval(x.Args[0])
+		tstr := x.Args[1].(*spec.StrLit).Val
+		tv, err := types.Eval(fc.P.Prog.Fset, fc.Pkg, token.NoPos, tstr)
+		if err != nil {
+			ec.fail("cast: %v", err)
+		}
+		return fc.fromTerm(ec.scalar(v, x), tv.Type)
+	case "freshmap":
+		// the global map was created empty by make() in its package-level initialiser (checked in the source)
+		id, ok := x.Args[0].(*spec.Ident)
+		if !ok || !fc.P.initIsEmptyMake(id.Name) {
+			ec.fail("freshmap(%s): the variable is not initialised by a plain make(map...)", x.Args[0])
+		}
+		m := ec.eval(x.Args[0])
+		mt := m.GoT.Underlying().(*types.Map)
+		dom, _, ks, _, _ := fc.mapKeys(mt)
+		ref := ec.scalar(m, x)
+		k := smt.Const("k!fm", ks)
+		d := fc.readKey(ec.cur, dom, ref, smt.Arr(ks, smt.Bool))
+		fc.Used["package-level initialiser of "+id.Name+" is make(map...) (read from the source)"] = true
+		return Val{T: smt.And(smt.Neq(ref, smt.IntLit(0)), smt.Forall([]*smt.Term{k}, smt.Not(smt.Select(d, k)), []*smt.Term{smt.Select(d, k)}))}
+	case "Is":
+		e, t := ec.scalar(ec.eval(x.Args[0]), x), ec.scalar(ec.eval(x.Args[1]), x)
+		fc.checkTaint(e)
+		return Val{T: fc.isErr(e, t)}
+	case "asErr":
+		e := ec.scalar(ec.eval(x.Args[0]), x)
+		fc.checkTaint(e)
+		return fc.fromTerm(fc.asErr(e), fc.errorPtrType())
+	case "coded":
+		e := ec.scalar(ec.eval(x.Args[0]), x)
+		fc.checkTaint(e)
+		return Val{T: smt.Neq(fc.asErr(e), smt.IntLit(0))}
+	case "codeOf":
+		e := ec.scalar(ec.eval(x.Args[0]), x)
+		fc.checkTaint(e)
+		return Val{T: fc.readKey(ec.cur, "Error.code", fc.asErr(e), smt.Int)}
+	case "dtypeIs":
+		v := ec.eval(x.Args[0])
+		name := x.Args[1].(*spec.StrLit).Val
+		return Val{T: smt.Eq(fc.dtype(ec.scalar(v, x)), fc.typeIDByName(name))}
+	}
+	if sf, ok := fc.P.SpecFn[x.Fun]; ok && sf.Macro {
+		if len(sf.Params) != len(x.Args) {
+			ec.fail("%s expects %d arguments", x.Fun, len(sf.Params))
+		}
+		n := ec
+		for i, a := range x.Args {
+			av := ec.eval(a)
+			if gt := fc.P.goTypeByName(sf.Params[i].Type); gt != nil {
+				if av.T == nil {
+					av = Val{T: ec.scalar(av, x)}
+				}
+				av = fc.fromTerm(av.T, gt)
+			}
+			n = n.with(sf.Params[i].Name, av)
+		}
+		return n.eval(sf.Body)
 	}
 	if sf, ok := fc.P.SpecFn[x.Fun]; ok {
 		fc.declareSpecFn(sf)
@@ -445,6 +604,12 @@ func (ec *evalCtx) callSpec(x *spec.Call) Val {
 				ec.fail("argument %d of %s has sort %s, want %s", i+1, x.Fun, t.Sort, want)
 			}
 			args[i] = t
+		}
+		if sf.Name == "canon" {
+			if lit, ok := fc.literalOf(args[0]); ok && !fc.canonDone[lit] {
+				fc.canonDone[lit] = true
+				fc.S.Assert(smt.SEq(smt.App("sf!canon", smt.Seq, args[0]), fc.strLit(textproto.CanonicalMIMEHeaderKey(lit))), "textproto.CanonicalMIMEHeaderKey(\""+lit+"\") computed")
+			}
 		}
 		return Val{T: smt.App("sf!"+sf.Name, specSort(sf.Ret), args...)}
 	}
@@ -469,6 +634,9 @@ func (ec *evalCtx) mapAccess(x *spec.Call) Val {
 	}
 	k := ec.scalar(ec.eval(x.Args[1]), x)
 	ref := ec.scalar(m, x)
+	if x.Fun == "mapdom" && ec.inTrigger {
+		return Val{T: smt.Select(fc.readKey(ec.cur, dom, ref, smt.Arr(ks, smt.Bool)), k)}
+	}
 	if x.Fun == "mapdom" {
 		return Val{T: smt.And(smt.Neq(ref, smt.IntLit(0)), smt.Select(fc.readKey(ec.cur, dom, ref, smt.Arr(ks, smt.Bool)), k))}
 	}
@@ -649,7 +817,14 @@ func (ec *evalCtx) location(e spec.Expr) (key string, ref *smt.Term, vs smt.Sort
 				return "ghost:" + g.Name, smt.IntLit(0), vs
 			}
 			if id, ok := x.Args[0].(*spec.Ident); ok && id.Name == "all" {
+				if g.Index != "" {
+					vs = smt.Arr(specSort(g.Index), vs)
+				}
 				return "ghost:" + g.Name, nil, vs
+			}
+			if g.Index != "" {
+				// the whole per-object map is assigned
+				return "ghost:" + g.Name, ec.scalar(ec.eval(x.Args[0]), e), smt.Arr(specSort(g.Index), vs)
 			}
 			return "ghost:" + g.Name, ec.scalar(ec.eval(x.Args[0]), e), vs
 		}
